@@ -174,12 +174,35 @@ ConnLost(m) == [m EXCEPT !.lost = TRUE,
                          !.nlog = IF m.active # 0 THEN @ \o [d \in 1..cfg.nd |-> <<m.active, d, "fail">>] ELSE @]
 
 -----------------------------------------------------------------------------
-\* all sequences over S of length 1..n
-RECURSIVE SeqsUpTo(_, _)
-SeqsUpTo(S, n) == IF n = 0 THEN {} ELSE {<<u>> : u \in S} \cup {Append(t, u) : t \in SeqsUpTo(S, n - 1), u \in S}
+(* What the client sends next.  The grammar of the explored streams is driven by the parse state
+   of R (the unit-at-a-time machine): at every position the client may send the items that are
+   valid there AND the malformed / misplaced ones of the property's list (an empty line or a
+   malformed line where a request line is expected; a continuation line, a line without colon,
+   conflicting / repeated / non-numeric framing fields among the field lines; body octets that
+   look like a request or a line end; chunk-size garbage, a missing CR LF after chunk data;
+   pipelined data while the application holds a request), restricted to cfg.units.           *)
+Allowed(r) ==
+    cfg.units \cap
+    (IF r.disc \/ r.noop THEN {}
+     ELSE IF r.handling THEN (IF r.dbuf # <<>> /\ r.dbuf[Len(r.dbuf)] # NL THEN {NL} ELSE {"RL11", "RL10", NL, "HC1", "B"})
+     ELSE IF r.line THEN
+          (IF r.buf # <<>> THEN {NL}
+           ELSE IF r.fl # 0 THEN {"RL11", "RL10", "RLB", NL}
+           ELSE FieldTokens \cup {NL, "HF", "HNC"})
+     ELSE IF r.dec.k = "id" THEN {"B", NL, "RL11"}
+     ELSE IF r.dec.st = "LEN" THEN (IF r.dec.cbuf = <<>> THEN {"K0", "K1", "KB"} ELSE {NL})
+     ELSE IF r.dec.st = "BODY" THEN {"B", NL}
+     ELSE IF r.dec.st = "CRLF" THEN {NL, "B"}
+     ELSE IF r.dec.st = "TRAILER" THEN (IF r.dec.cbuf = <<>> THEN {NL, "HP"} ELSE {NL})
+     ELSE {})
+\* the deliveries of up to d units the client can make from R's state
+RECURSIVE Plaus(_, _)
+Plaus(r, d) ==
+    IF d = 0 THEN {}
+    ELSE UNION {{<<u>>} \cup {<<u>> \o t : t \in Plaus(DataRecv(r, <<u>>), d - 1)} : u \in Allowed(r)}
 
-(* The client's next units arrive in one delivery: any units, any length up to cfg.maxd -- the
-   cut falls anywhere (inside a line, before its NL, inside a body, between requests).       *)
+(* The client's next units arrive in one delivery of up to cfg.maxd units -- the cut falls
+   anywhere (inside a line, before its NL, inside a body, between requests).                *)
 Deliver(data) ==
     /\ ~M.lost /\ ~M.disc
     /\ M' = DataRecv(M, data)
@@ -199,7 +222,7 @@ Lose ==
     /\ M' = ConnLost(M) /\ R' = ConnLost(R)
     /\ UNCHANGED <<cfg, sent>>
 
-Next == \/ \E data \in SeqsUpTo(cfg.units, cfg.maxd) : Deliver(data)
+Next == \/ \E data \in Plaus(R, cfg.maxd) : Deliver(data)
         \/ FinishLater
         \/ Lose
 
